@@ -993,6 +993,44 @@ func (fv *FV) specCall(env *Env, c *SCall) Term {
 			return Term{S: app("strcmp3", x.S, y.S), Sort: sInt, T: types.Typ[types.Int]}
 		}
 		fv.sfail("cmp3 on sort %s", x.Sort)
+	case "clz64":
+		// number of leading zero bits of a 64-bit value, as an exact 65-way case split (Int result)
+		need(1)
+		a := args()
+		if a[0].Sort != sBV64 {
+			fv.sfail("clz64 of %s", a[0].Sort)
+		}
+		r := "64"
+		for k := 63; k >= 0; k-- {
+			// clz == k iff value >= 2^(63-k) (and smaller than the next power)
+			r = ite(app("bvuge", a[0].S, fmt.Sprintf("(_ bv%d 64)", uint64(1)<<uint(63-k))), fmt.Sprint(k), r)
+		}
+		return Term{S: r, Sort: sInt, T: types.Typ[types.Int]}
+	case "mask64":
+		// MaxUint64 >> k for an Int k in 0..64 (0 beyond)
+		need(1)
+		a := args()
+		r := "(_ bv0 64)"
+		for k := 63; k >= 0; k-- {
+			r = ite(eq(a[0].S, fmt.Sprint(k)), fmt.Sprintf("(_ bv%d 64)", ^uint64(0)>>uint(k)), r)
+		}
+		return Term{S: r, Sort: sBV64, T: types.Typ[types.Uint64]}
+	case "pow2bv":
+		// 1 << k as a 64-bit value for an Int k (0 for k >= 64)
+		need(1)
+		a := args()
+		r := "(_ bv0 64)"
+		for k := 63; k >= 0; k-- {
+			r = ite(eq(a[0].S, fmt.Sprint(k)), fmt.Sprintf("(_ bv%d 64)", uint64(1)<<uint(k)), r)
+		}
+		return Term{S: r, Sort: sBV64, T: types.Typ[types.Uint64]}
+	case "bv64":
+		need(1)
+		a := args()
+		if a[0].Sort == sBV64 {
+			return a[0]
+		}
+		return Term{S: fmt.Sprintf("((_ int2bv 64) %s)", a[0].S), Sort: sBV64, T: types.Typ[types.Uint64]}
 	case "oldelem":
 		// oldelem(s, i): element i of slice s in the old heap; s is evaluated in the old state, i in the current one
 		need(2)
